@@ -137,7 +137,7 @@ func doubleSpecials() []float64 {
 func init() {
 	core.Register(&core.Prop{
 		ID: "C08", Level: "model_checking",
-		Rule:        "Exhaustive enumeration of doubles through the real encoder/decoder against R1's shortest exact form and the number itself: (thorough) every one of the 2^32 float32 bit patterns widened to float64; every float32 pattern whose low 16 bits are in {0000,0001,7fff,8000,ffff}; every integer in [-70000,70000]; +-2^k and both neighbours for k in -1074..1023; every float64 whose bytes are all in {00,01,7f,80,ff}; NaNs, infinities, zeros, subnormal extremes; and a reduced set at the non-top positions (float64 field, float32 field, []float64, []float32, map value). Distinct by construction; every case non-trivial.",
+		Rule:        "Exhaustive enumeration of doubles through the real encoder/decoder against R1's shortest exact form and the number itself: (thorough) every one of the 2^32 float32 bit patterns widened to float64; every float32 pattern whose low 16 bits are in {0000,0001,7fff,8000,ffff}; every integer in [-70000,70000]; +-2^k and both neighbours for k in -1074..1023; every exponent x 12 mantissas of float32 precision (low 29 bits zero) x both signs; every float64 whose bytes are all in {00,01,7f,80,ff}; NaNs, infinities, zeros, subnormal extremes; and a reduced set at the non-top positions (float64 field, float32 field, []float64, []float32, map value). Distinct by construction; every case non-trivial.",
 		Assumptions: []string{"float64 is exhaustive only over the structured families, not over 2^64", "x5f is read as a 32-bit float, as the specification text says"},
 		Units: func(tier string) []core.Unit {
 			var us []core.Unit
@@ -209,6 +209,24 @@ func init() {
 					c.Outcome("float32-pattern")
 				}})
 			}
+			us = append(us, core.Unit{Name: "float32-precision-mantissas", Cost: 10, Run: func(c *core.Ctx) {
+				// doubles whose mantissa fits 23 bits, at every exponent: inside the float32 subnormal range
+				// such a value is NOT a float32 although its low 29 mantissa bits are zero
+				s := newSweepCodec()
+				scratch := make([]byte, 0, 16)
+				mants := []uint64{0, 1, 2, 3, 0x400000, 0x400001, 0x600000, 0x7ffffe, 0x7fffff, 0x000100, 0x555555, 0x2aaaaa}
+				for e := uint64(0); e < 2047; e++ {
+					for _, m := range mants {
+						for _, sign := range []uint64{0, 1} {
+							if c.Begin() {
+								checkDouble(c, s, math.Float64frombits(sign<<63|e<<52|m<<29), scratch)
+							}
+						}
+					}
+				}
+				c.NontrivialN(c.Res.Evaluations)
+				c.Outcome("float32-precision")
+			}})
 			us = append(us, core.Unit{Name: "positions", Cost: 10, Run: func(c *core.Ctx) {
 				for _, v := range doubleSpecials() {
 					checkDoublePositions(c, v)
